@@ -26,9 +26,9 @@ def c01(q):
         "jobs": [
             {"sub": "sweep", "cfgs": ["debug", "release"], "cases": 1_000_000, "ms": 0, "shards": 8},
             {"sub": "random", "cfgs": ["debug", "release"], "cases": 120_000 if q else 2_000_000, "ms": 40_000 if q else 400_000},
-            {"sub": "random", "cfgs": ["miri"], "cases": 1500 if q else 30_000, "ms": 50_000 if q else 600_000, "lite": True, "wall": 300 if q else 1500},
+            {"sub": "random", "cfgs": ["miri"], "cases": 1500 if q else 30_000, "ms": 50_000 if q else 600_000, "lite": True, "corpus": True, "wall": 300 if q else 1500},
         ] + ([] if q else [
-            {"sub": "random", "cfgs": ["miri-tb"], "cases": 10_000, "ms": 300_000, "lite": True, "wall": 900},
+            {"sub": "random", "cfgs": ["miri-tb"], "cases": 10_000, "ms": 300_000, "lite": True, "corpus": True, "wall": 900},
             {"sub": "random", "cfgs": ["asan"], "cases": 300_000, "ms": 200_000, "lite": True},
             {"sub": "random", "cfgs": ["memcheck"], "cases": 20_000, "ms": 200_000, "lite": True, "shards": 8},
         ]),
@@ -46,7 +46,7 @@ def c02(q):
         "jobs": [
             {"sub": "sweep", "cfgs": ["debug"], "cases": 1_000_000, "ms": 0, "shards": 8},
             {"sub": "random", "cfgs": ["debug", "release"], "cases": 100_000 if q else 1_500_000, "ms": 40_000 if q else 400_000},
-            {"sub": "random", "cfgs": ["miri"], "cases": 1200 if q else 20_000, "ms": 50_000 if q else 600_000, "wall": 300 if q else 1500},
+            {"sub": "random", "cfgs": ["miri"], "cases": 1200 if q else 20_000, "ms": 50_000 if q else 600_000, "corpus": True, "wall": 300 if q else 1500},
         ],
     }
 
